@@ -15,7 +15,7 @@ def initBits (c : Circuit) (arg : Option (List Int)) : Option (List Int) :=
   | none => if c.ncb > 0 then some (List.replicate c.ncb 0) else none
 
 /-- the caller's argument refers to an existing list -/
-def CbOk (w : World Q P) (cb : Option Ref) : Prop := ∀ r, cb = some r → r < w.heap.size
+def CbOk (w : World Q P) (cb : Option Ref) : Prop := ∀ r : Nat, cb = some r → r < w.heap.size
 
 /-- `initialize` creates its own list: the repaired code, or no list passed -/
 def Fresh (cfg : Cfg) (cb : Option Ref) : Prop := cfg.copyCbits = true ∨ cb = none
